@@ -142,6 +142,9 @@ def c03(ctx):
     W, R, NL = ctx.q((14, 1, 6), (40, 2, 40))
     builds = build_set(ctx, ctx.q(["prod", "asan-gcc"], ["prod", "gcc-O2", "clang-O3", "asan-gcc", "asan-clang"]))
     run_harness_on(ctx, "h_aead.c", builds, ["--mode", "tamper", "--p1", W, "--p2", R, "--p3", NL], 16, timeout=3000)
+    if ctx.thorough:
+        # AD extended / truncated by exactly 2^32 bytes must be rejected (a 32-bit length somewhere would accept it)
+        run_harness_on(ctx, "h_aead.c", build_set(ctx, ["prod"]), ["--mode", "tamper,hugetamper"], 3, hname="h_aead-huge", timeout=5000)
     ctx.rule = AEAD_RULE + (" Per packet: valid, forged-valid (random body + model tag must be ACCEPTED), 64 tag bit flips, every "
                             "non-zero XOR delta in every tag byte, cancellation patterns (XOR-fold / additive / reversed / rotated / complemented-but-one), "
                             "bit flips in body / AD / nonce / key, truncation, extension, AD-message boundary shifts by 1..4, AD-body swap, clen 0..7; "
@@ -180,6 +183,8 @@ def c08(ctx):
     W2, R2, NL2 = ctx.q((10, 1, 4), (28, 1, 30))
     builds2 = build_set(ctx, ctx.q(["prod", "asan-gcc"], ["prod", "clang-O3", "asan-gcc", "asan-clang"]))
     run_harness_on(ctx, "h_aead.c", builds2, ["--mode", "tamper,siv", "--p1", W2, "--p2", R2, "--p3", NL2], 16, hname="h_aead-t", timeout=3000)
+    if ctx.thorough:
+        run_harness_on(ctx, "h_aead.c", build_set(ctx, ["prod"]), ["--mode", "tamper,siv,hugetamper"], 3, hname="h_aead-huge", timeout=5000)
     ctx.rule = AEAD_RULE + (" SIV variants. Round-trip battery (incl. in place) + tamper battery where every expected verdict comes from "
                             "the model of the SIV construction for arbitrary bodies and tags (a changed tag changes keystream and expected tag), "
                             "nonce bytes 0..3 and 4..11 flipped separately, clen 0..7.")
